@@ -252,7 +252,9 @@ def is_scalar(v):
 
 
 def is_concrete(v):
-    return v is None or isinstance(v, (bool, int, float, str, tuple, type(Ellipsis)))
+    if isinstance(v, tuple):
+        return all(is_concrete(x) for x in v)          # a tuple with a symbolic element is not a concrete value
+    return v is None or isinstance(v, (bool, int, float, str, type(Ellipsis)))
 
 
 def truth(v):
@@ -339,6 +341,18 @@ def scalar_compare(op, l, r):
                     ast.Gt: lambda: l > r, ast.GtE: lambda: l >= r, ast.In: lambda: l in r, ast.NotIn: lambda: l not in r}[type(op)]()
         except TypeError:
             raise Unsupported("concrete compare")
+    if isinstance(l, tuple) and isinstance(r, tuple) and isinstance(op, (ast.Eq, ast.NotEq)):
+        # tuples (e.g. shapes) with symbolic entries: equal iff same length and all entries equal
+        if len(l) != len(r):
+            return isinstance(op, ast.NotEq)
+        parts = [scalar_compare(ast.Eq(), x, y) for x, y in zip(l, r)]
+        if any(p is False for p in parts):
+            return isinstance(op, ast.NotEq)
+        sym = [p for p in parts if p is not True]
+        eq = z3.And(*sym) if sym else True
+        if isinstance(op, ast.Eq):
+            return eq
+        return (not eq) if isinstance(eq, bool) else z3.Not(eq)
     if isinstance(l, str) or isinstance(r, str) or l is None or r is None:
         if isinstance(op, ast.Eq):
             return False
@@ -599,7 +613,7 @@ class Engine:
     def stmt_AugAssign(self, s, st):
         cur = self.eval(_load(s.target), st)
         v = self.eval(s.value, st)
-        if isinstance(cur, Ref) and isinstance(st.get(cur), ArrData):
+        if isinstance(cur, Ref) and isinstance(st.get(cur), ArrData) and not isinstance(s.target, ast.Subscript):
             # in-place array op: the object is mutated (aliases see it)
             new = self.binop(s.op, cur, v, st)
             if isinstance(new, Ref):
@@ -1221,6 +1235,15 @@ class Engine:
         return self.binop(e.op, self.eval(e.left, st), self.eval(e.right, st), st)
 
     def binop(self, op, l, r, st):
+        for a_, b_ in ((l, r), (r, l)):
+            if isinstance(a_, Ref) and isinstance(st.get(a_), ListData) and isinstance(op, (ast.Mult, ast.Add)) and not isinstance(b_, Ref):
+                # Python list repetition [x] * n (NOT an elementwise product); only the one-element case is modelled
+                ld = st.get(a_)
+                if isinstance(op, ast.Mult) and isinstance(ld.n, int) and ld.n == 1 and is_int_like(b_):
+                    x = ld.sel(0)
+                    n_ = to_int(b_)
+                    return st.alloc(ListData(z3.If(n_ >= 0, n_, 0) if is_z3(n_) else max(0, n_), lambda j, x=x: x, ld.kind))
+                raise Unsupported("list arithmetic")
         if isinstance(l, Ref) or isinstance(r, Ref):
             return self.lib.array_binop(self, op, l, r, st)
         if isinstance(l, Opaque) or isinstance(r, Opaque):
